@@ -501,7 +501,8 @@ fn slow_step(ctx: &Ctx) -> SubReport {
             let mut s = StateSpec::default();
             let mut prog: Vec<ItemSpec> = (0..lead).map(|_| ItemSpec::instr("NOOP")).collect();
             prog.push(ItemSpec::instr("HARNESS.SLEEP"));
-            prog.extend((0..remaining).map(|_| ItemSpec::instr("NOOP")));
+            // the remaining items are integer literals: every executed step is visible on INTEGER
+            prog.extend((0..remaining).map(|k| ItemSpec::Int(k as i32)));
             s.exec = prog;
             s.config.eval_push_limit = 100_000;
             s.config.eval_time_limit = 5;
@@ -509,12 +510,25 @@ fn slow_step(ctx: &Ctx) -> SubReport {
             let (mut real, _) = s.build();
             let r = guarded(|| PushInterpreter::run(&mut real, &mut iset));
             rep.evaluations += 1;
-            let case = json!({"program": format!("{} x NOOP, HARNESS.SLEEP (40 ms), {} x NOOP", lead, remaining), "eval_time_limit_ms": 5});
+            let case = json!({"program": format!("{} x NOOP, HARNESS.SLEEP (40 ms), {} integer literals", lead, remaining), "eval_time_limit_ms": 5});
             match r {
                 Err((loc, msg)) => rep.fail(ctx, Fail::new(format!("C02/time-limit/panic@{}", loc), msg), case),
                 Ok(o) => {
+                    // whatever the outcome, the state left behind is the state reached by single-
+                    // stepping the program j times, for the j that was reached: j literals on
+                    // INTEGER (top = the last one), the other remaining - j still on EXEC
+                    let snap = StateSpec::snapshot(&real);
+                    let j = snap.ints.len();
+                    let want_ints: Vec<i32> = (0..j as i32).rev().collect();
+                    let want_exec: Vec<ItemSpec> = (j..remaining).map(|k| ItemSpec::Int(k as i32)).collect();
                     if o != PushInterpreterState::TimeLimitExceeded {
                         rep.fail(ctx, Fail::new("C02/time-limit/not-reported-after-a-slow-step", format!("a 40 ms step overran the 5 ms limit with {} items left on EXEC but run() returned {:?}", remaining, o)), case);
+                    } else if j > remaining || snap.ints != want_ints || snap.exec != want_exec {
+                        rep.fail(
+                            ctx,
+                            Fail::new("C02/time-limit/state-is-not-a-single-stepped-state", format!("after TimeLimitExceeded INTEGER holds {:?} and EXEC {} items; single-stepping {} more steps after the slow one leaves {} items on EXEC", &snap.ints[..snap.ints.len().min(6)], snap.exec.len(), j, remaining.saturating_sub(j))),
+                            case,
+                        );
                     } else {
                         rep.nontrivial.insert((remaining * 10 + lead) as u64);
                         rep.sample(case);
